@@ -4,6 +4,8 @@ import XvcIgnore.GitDir
 import XvcIgnore.Gen.GitignoreWrites
 import XvcIgnore.CacheDir
 import XvcIgnore.Gen.HashAlgorithms
+import XvcIgnore.IgnoreOps
+import XvcIgnore.Gen.IgnoreSends
 /-!
   # C16 — Tracked data files never enter Git
 
@@ -420,6 +422,134 @@ example :
     gitIgnored (trackNewOnly "D".toList [] [x] r) ["out".toList, "model.bin".toList] false = false ∧
     gitIgnored (trackCmd "D".toList [] [x] [] r).tree ["out".toList, "model.bin".toList] false = true := by decide
 
+/-! ## materialisation: the file itself is always reported to the ignore handler
+
+  recheck / copy / move / carry-in / bring put files into the workspace with `recheck_from_cache`, which tells
+  the ignore handler what to ignore.  The handler may drop an `IgnoreDir` (it writes `/dir/` only when xvc's
+  matcher answers `NoMatch` for the directory); the file is safe because an `IgnoreFile` for the file itself
+  is sent as well, unconditionally.  The send sites are regenerated from the source (Gen/IgnoreSends.lean). -/
+
+/-- the directories / files the handler works on after its pre-filter (`handlerUpdate` spelled in pieces) -/
+def handlerDirs (dirOps : List Target) (t : Tree) : List Target :=
+  (dedup dirOps.reverse).reverse.filter (fun d => check (gitRules t) d.pathStr == .noMatch)
+def handlerFiles (fileOps : List Target) (t : Tree) : List Target :=
+  (dedup fileOps.reverse).reverse.filter (fun f => check (gitRules t) f.pathStr == .noMatch)
+/-- the workspace after the handler wrote the directory lines, before the file lines -/
+def handlerMid (date : Str) (dirOps : List Target) (t : Tree) : Tree :=
+  updateDirGitignores (gitRules t) date (handlerDirs dirOps t) t
+
+theorem handlerUpdate_eq (date : Str) (dirOps fileOps : List Target) (t : Tree) :
+    handlerUpdate date dirOps fileOps t =
+      updateFileGitignores (gitRules (handlerMid date dirOps t)) date (handlerFiles fileOps t) (handlerMid date dirOps t) := rfl
+
+/-- **Every materialised file is reported as a FILE operation, whether or not its parent directory had to be
+    created** — so that ignoring the file does not depend on what the handler decides about the directory.
+    Over the send sites regenerated from `recheck_from_cache`. -/
+theorem C16_materialised_file_always_gets_file_op (created : Bool) (x : Target) :
+    IgnoreOp.file x ∈ emittedOps Gen.RECHECK_IGNORE_SENDS created x :=
+  file_op_of_unconditional_site _ (by decide) created x
+
+/-- **The handler ignores every file that was reported to it, whatever it does with the directory operations**
+    (written, or dropped because xvc's matcher does not answer `NoMatch` for the directory).  Excluded regions
+    as everywhere, for the FILE, at the two moments the handler consults xvc's matcher (before and after the
+    directory lines are written): K6b literal name; K6a xvc's matcher does not find the file whitelisted; K12
+    when xvc's matcher believes the file already ignored, git agrees. -/
+theorem C16_handler_ignores_reported_file (date : Str) (dirOps fileOps : List Target) (t : Tree) (x : Target)
+    (hx : x ∈ fileOps) (hdir : (contentAt x.dir t).isSome = true)
+    (hd : '\n' ∉ date) (hdn : ∀ y ∈ dirOps, '\n' ∉ y.name) (hfn : ∀ y ∈ fileOps, '\n' ∉ y.name) (ht : NoLoneCR t)
+    (hK6b : PlainName x.name)
+    (hK6a0 : check (gitRules t) x.pathStr ≠ .whitelist)
+    (hK12_0 : check (gitRules t) x.pathStr = .ignore → gitIgnored t (x.dir ++ [x.name]) false = true)
+    (hK6a1 : check (gitRules (handlerMid date dirOps t)) x.pathStr ≠ .whitelist)
+    (hK12_1 : check (gitRules (handlerMid date dirOps t)) x.pathStr = .ignore →
+      gitIgnored (handlerMid date dirOps t) (x.dir ++ [x.name]) false = true) :
+    gitIgnored (handlerUpdate date dirOps fileOps t) (x.dir ++ [x.name]) false = true := by
+  rw [handlerUpdate_eq]
+  have hs1 : ∀ y ∈ handlerDirs dirOps t, '\n' ∉ y.name := by
+    intro y hy
+    have := (List.mem_filter.1 hy).1
+    rw [List.mem_reverse, mem_dedup, List.mem_reverse] at this
+    exact hdn y this
+  have hs2 : ∀ y ∈ handlerFiles fileOps t, '\n' ∉ y.name := by
+    intro y hy
+    have := (List.mem_filter.1 hy).1
+    rw [List.mem_reverse, mem_dedup, List.mem_reverse] at this
+    exact hfn y this
+  obtain ⟨a1, a2⟩ := dirs_more (gitRules t) date (handlerDirs dirOps t) t hd hs1 ht
+  obtain ⟨b1, _⟩ := files_more (gitRules (handlerMid date dirOps t)) date (handlerFiles fileOps t) (handlerMid date dirOps t) hd hs2 a2
+  cases h0 : check (gitRules t) x.pathStr with
+  | whitelist => exact absurd h0 hK6a0
+  | ignore =>
+    exact gitIgnored_of_readsLikeMore _ _ b1 _ _ (gitIgnored_of_readsLikeMore _ _ a1 _ _ (hK12_0 h0))
+  | noMatch =>
+    have hx' : x ∈ handlerFiles fileOps t := by
+      unfold handlerFiles
+      refine List.mem_filter.2 ⟨?_, by simp [h0]⟩
+      rw [List.mem_reverse, mem_dedup, List.mem_reverse]; exact hx
+    cases h1 : check (gitRules (handlerMid date dirOps t)) x.pathStr with
+    | whitelist => exact absurd h1 hK6a1
+    | ignore => exact gitIgnored_of_readsLikeMore _ _ b1 _ _ (hK12_1 h1)
+    | noMatch =>
+      apply C16_ignored_after_update_partial _ date _ _ x hx' h1 hK6b hs2
+      have := C16_append_only_dirs (gitRules t) date (handlerDirs dirOps t) t x.dir
+      obtain ⟨old, hold⟩ := Option.isSome_iff_exists.1 hdir
+      rw [hold] at this
+      obtain ⟨suf, hsuf⟩ := this
+      show (contentAt x.dir (updateDirGitignores (gitRules t) date (handlerDirs dirOps t) t)).isSome = true
+      rw [hsuf]; rfl
+
+/-- both together: a file materialised by a command is ignored afterwards, parent directory created or not,
+    directory line written or dropped -/
+theorem C16_materialised_file_ignored (date : Str) (xs : List (Target × Bool)) (t : Tree) (x : Target) (created : Bool)
+    (hx : (x, created) ∈ xs) (hdir : (contentAt x.dir t).isSome = true)
+    (hd : '\n' ∉ date)
+    (hdn : ∀ y ∈ opDirs (materialiseOps Gen.RECHECK_IGNORE_SENDS xs), '\n' ∉ y.name)
+    (hfn : ∀ y ∈ opFiles (materialiseOps Gen.RECHECK_IGNORE_SENDS xs), '\n' ∉ y.name) (ht : NoLoneCR t)
+    (hK6b : PlainName x.name)
+    (hK6a0 : check (gitRules t) x.pathStr ≠ .whitelist)
+    (hK12_0 : check (gitRules t) x.pathStr = .ignore → gitIgnored t (x.dir ++ [x.name]) false = true)
+    (hK6a1 : check (gitRules (handlerMid date (opDirs (materialiseOps Gen.RECHECK_IGNORE_SENDS xs)) t)) x.pathStr ≠ .whitelist)
+    (hK12_1 : check (gitRules (handlerMid date (opDirs (materialiseOps Gen.RECHECK_IGNORE_SENDS xs)) t)) x.pathStr = .ignore →
+      gitIgnored (handlerMid date (opDirs (materialiseOps Gen.RECHECK_IGNORE_SENDS xs)) t) (x.dir ++ [x.name]) false = true) :
+    gitIgnored (materialiseUpdate Gen.RECHECK_IGNORE_SENDS date xs t) (x.dir ++ [x.name]) false = true := by
+  unfold materialiseUpdate
+  apply C16_handler_ignores_reported_file date _ _ t x ?_ hdir hd hdn hfn ht hK6b hK6a0 hK12_0 hK6a1 hK12_1
+  rw [mem_opFiles]
+  unfold materialiseOps
+  rw [List.mem_flatMap]
+  exact ⟨(x, created), hx, C16_materialised_file_always_gets_file_op created x⟩
+
+/-- non-vacuity, scenario s1 of seeded defect C16-4: the user's `.gitignore` re-includes `datasets` by name; a
+    tracked file is copied into `datasets/`, which has just been created.  The handler drops the `IgnoreDir`
+    (xvc's matcher answers `Whitelist` for the directory, nothing is written to the root file), the file line
+    is written into `datasets/.gitignore`, git ignores the file.  With the send sites of the rejected variant
+    (NOT the code: `IgnoreDir` for a created parent INSTEAD of `IgnoreFile`) nothing is written and git does not
+    ignore the file. -/
+example :
+    let t : Tree := .node "*.tmp\n!/datasets\n".toList [] [("datasets".toList, .node [] [] [])]
+    let x : Target := ⟨["datasets".toList], "train.bin".toList⟩
+    let oneOp : List SendSite := [⟨.ignoreDir, .parentCreated⟩, ⟨.ignoreFile, .other⟩]
+    emittedOps Gen.RECHECK_IGNORE_SENDS true x = [.dir ⟨[], "datasets".toList⟩, .file x] ∧
+    check (gitRules t) (Target.pathStr ⟨[], "datasets".toList⟩) = .whitelist ∧
+    check (gitRules t) x.pathStr = .noMatch ∧
+    contentAt [] (materialiseUpdate Gen.RECHECK_IGNORE_SENDS "D".toList [(x, true)] t) = some "*.tmp\n!/datasets\n".toList ∧
+    contentAt ["datasets".toList] (materialiseUpdate Gen.RECHECK_IGNORE_SENDS "D".toList [(x, true)] t) =
+      some "### Following 1 lines are added by xvc on D\n/train.bin\n".toList ∧
+    gitIgnored (materialiseUpdate Gen.RECHECK_IGNORE_SENDS "D".toList [(x, true)] t) ["datasets".toList, "train.bin".toList] false = true ∧
+    emittedOps oneOp true x = [.dir ⟨[], "datasets".toList⟩] ∧
+    gitIgnored (materialiseUpdate oneOp "D".toList [(x, true)] t) ["datasets".toList, "train.bin".toList] false = false := by decide
+
+/-- non-vacuity, scenario s2: no user pattern; the tracked file `latest` gave the root the line `/latest`, which
+    xvc's matcher applies at any depth (K12): the `IgnoreDir` for the new directory `runs/latest` is dropped, the
+    file line saves the file -/
+example :
+    let t : Tree := .node "/latest\n".toList [] [("runs".toList, .node [] [] [("latest".toList, .node [] [] [])])]
+    let x : Target := ⟨["runs".toList, "latest".toList], "weights.bin".toList⟩
+    check (gitRules t) (Target.pathStr ⟨["runs".toList], "latest".toList⟩) = .ignore ∧
+    gitIgnored t ["runs".toList, "latest".toList] true = false ∧
+    gitIgnored (materialiseUpdate Gen.RECHECK_IGNORE_SENDS "D".toList [(x, true)] t)
+      ["runs".toList, "latest".toList, "weights.bin".toList] false = true := by decide
+
 /-! ## the append primitive
 
   Everything above is about `writeGroups`, whose edit of one file is `old ++ appendText …`: the theorems
@@ -638,6 +768,12 @@ open Ign.Git in
 #print axioms C16_faulted_write_keeps_old_bytes
 open Ign.Git in
 #print axioms C16_complete_write_is_model_edit
+open Ign.Git in
+#print axioms C16_materialised_file_always_gets_file_op
+open Ign.Git in
+#print axioms C16_handler_ignores_reported_file
+open Ign.Git in
+#print axioms C16_materialised_file_ignored
 open Ign.Git in
 #print axioms C16_whitelisted_counterexample
 open Ign.Git in
